@@ -96,10 +96,10 @@ func TestC02(t *testing.T) { runWorldSpec(t, withLevel(specC02)) }
 var specC03 = &worldSpec{
 	Prop: "C03",
 	Profile: &Profile{MinSteps: 12, MaxSteps: 40, QuietOneIn: 3,
-		W:        weights(map[string]int{"setnil": 0, "lvfo": 4, "dvf": 1, "prune": 5, "setinit": 2, "vread": 3, "hop": 2}),
+		W:        weights(map[string]int{"setnil": 0, "lvfo": 4, "dvf": 1, "prune": 5, "setinit": 2, "vread": 3, "hop": 2, "replay": 30, "reload": 12}),
 		Backends: []string{"mem"}},
 	Obs:  Observers{Proofs: true},
-	Rule: "history of 12-40 steps (incl. export / import hops, plain and compressed: the history continues on the imported store); after every step, for every retained non-empty version and the working tree and every probe key (all present keys; absent: below min, above max, neighbours, prefixes, extensions) the proof of the right kind must be produced and must verify with ics23.Verify(Non)Membership(IavlSpec) against the REFERENCE root; it must not verify for another value, another key, the opposite claim or the reference root of another retained version in which the claim is false; wrong-kind requests must error; on committed versions the tree's own VerifyMembership / VerifyNonMembership / VerifyProof accept its proofs and reject the opposite claim. non-trivial = some version with >=2 keys, both proof kinds exercised, and a proof path with nodes of >=2 versions; distinct = sha256 of the history",
+	Rule: "history of 12-40 steps (incl. export / import hops, plain and compressed: the history continues on the imported store; loads of an older version on the live handle followed by the replay of the recorded writes of the existing next version and its idempotent re-commit); after every step, for every retained non-empty version and the working tree and every probe key (all present keys; absent: below min, above max, neighbours, prefixes, extensions) the proof of the right kind must be produced and must verify with ics23.Verify(Non)Membership(IavlSpec) against the REFERENCE root; it must not verify for another value, another key, the opposite claim or the reference root of another retained version in which the claim is false; wrong-kind requests must error; on committed versions the tree's own VerifyMembership / VerifyNonMembership / VerifyProof accept its proofs and reject the opposite claim. non-trivial = some version with >=2 keys, both proof kinds exercised, and a proof path with nodes of >=2 versions; distinct = sha256 of the history",
 	Nontrivial: func(w *World) bool {
 		return w.Cnt["max_keys"] >= 2 && w.Cnt["membership_proofs"] > 0 && w.Cnt["nonmembership_proofs"] > 0 && w.Labels["proof_path_multi_version"]
 	},
